@@ -65,6 +65,13 @@ def gen_history(rng, n, ng_heavy=False):
             v = rng.choice(['s1a_', 's1b_', 's1a_', 'zz'])
             h.append(['queryg', 'p', v] if k < 0.4 else ['startg', 'p', v] if k < 0.6 else ['step', rng.randrange(4)] if k < 0.9 else ['close', rng.randrange(4), 'close'])
         return h
+    if ng_heavy == 'reg':
+        # registration-heavy: natives made on the spot come and go (re-registration, clear) in every engine
+        for _ in range(n):
+            k = rng.random()
+            nm = rng.choice(['n', 'f'])
+            h.append(['register', nm, rng.choice((1, 2))] if k < 0.45 else ['clear'] if k < 0.55 else ['querypair', nm] if k < 0.8 else ['query', nm])
+        return h
     for _ in range(n):
         k = rng.random()
         if ng_heavy and k < 0.35:
@@ -87,7 +94,8 @@ def gen_history(rng, n, ng_heavy=False):
         elif k < 0.46:
             h.append(['retractall', rng.choice(['p', 'f']), rng.choice('abc')])
         elif k < 0.52:
-            h.append(['register', rng.choice(['n', 'f', 'p'])])
+            # natives are closures made on the spot, referenced by the engine only, arity inferred from the signature
+            h.append(['register', rng.choice(['n', 'f', 'p']), rng.choice((1, 1, 2))])
         elif k < 0.56:
             h.append(['clear'])
         elif k < 0.61:
@@ -99,7 +107,7 @@ def gen_history(rng, n, ng_heavy=False):
         elif k < 0.95:
             h.append(['close', rng.randrange(4), rng.choice(['close', 'drop'])])
         elif k < 0.96:
-            h.append(['query', rng.choice(QUERIES)])
+            h.append(['query', rng.choice(QUERIES)] if rng.random() < 0.6 else ['querypair', rng.choice(['n', 'f', 'p'])])
         elif k < 0.975:
             # a call with a ground argument: atom-with-atom unifications (also held suspended at their answer)
             h.append([rng.choice(('queryg', 'startg')), rng.choice(['p', 'f']), rng.choice(GROUND_VALUES)])
@@ -150,7 +158,7 @@ def gen(seed, tier):
         steps = [[rng.randrange(ntasks), rng.choice(['next'] * 8 + ['close', 'drop'])] for _ in range(rng.randrange(4, 40))]
         return {'mode': mode, 'world': world, 'dynfacts': dyn, 'tasks': tasks, 'steps': steps}
     ne = rng.choice((2, 2, 3) if tier != 'thorough' else (2, 3, 3, 4))
-    ng_heavy = rng.choice((False, False, False, False, True, True, 'ground'))
+    ng_heavy = rng.choice((False, False, False, False, True, True, 'ground', 'reg'))
     hs = [gen_history(rng, rng.randrange(5, 26 * (2 if tier == 'thorough' else 1)), ng_heavy) for _ in range(ne)]
     return {'mode': mode, 'histories': hs, 'sched_seed': rng.randrange(1 << 30), 'switch_p': rng.choice((0.005, 0.02, 0.05, 0.2)), 'schedule': None}
 
@@ -242,11 +250,27 @@ class EngineRun:
             self.nreg += 1
             tagv = 'py%d_%s' % (self.nreg, self.tag)
 
+            if len(op) > 2 and op[2] == 2:
+                def native2(a, b):
+                    for _ in unify(a, yp.atom(tagv)):
+                        for _ in unify(b, yp.atom(tagv)):
+                            yield False
+                yp.register_function(op[1], native2)
+                return None
+
             def native(a):
                 for _ in unify(a, yp.atom(tagv)):
                     yield False
             yp.register_function(op[1], native)
             return None
+        if kind == 'querypair':
+            x, y = yp.variable(), yp.variable()
+            r = []
+            for _ in yp.query(op[1], [x, y]):
+                r.append([to_python(x), to_python(y)])
+                if len(r) > 50:
+                    break
+            return r
         if kind == 'clear':
             yp.clear()
             self.atoms = {}
